@@ -121,14 +121,18 @@ fn check_spline<T: Comp>(n: usize, seed: usize, r: &mut Report) {
         }
     }
     // polyline approximation
-    for (ti, thr) in [1.0f32, 1e-1, 1e-2, 1e-4, 0.0, -1.0].into_iter().enumerate() {
+    // criteria: |q - q'| <= thr per component (indices 0..5), and one-sided ones that look at the SIGN of the
+    // documented error vector q - q' (real midpoint minus linear approximation): q - q' <= thr (indices 6, 7)
+    for (ti, thr) in [1.0f32, 1e-1, 1e-2, 1e-4, 0.0, -1.0, 1e-2, 1e-3].into_iter().enumerate() {
+        let signed = ti >= 6;
         if n > 4 && thr <= 0.0 && seed > 0 { continue; } // depth-bound runs are 2^D points; one polygon per n suffices
+        if signed && n > 4 && seed > 1 { continue; }
         r.eval();
         let thr_s = thr * scale as f32;
-        let halt = |d: &T::Diff| T::dcomps(d).iter().all(|x| x.abs() <= thr_s as f64);
+        let halt = |d: &T::Diff| T::dcomps(d).iter().all(|x| if signed { *x <= thr_s as f64 } else { x.abs() <= thr_s as f64 });
         let out = match caught(|| s.approximate(halt)) { Ok(o) => o, Err(p) => { r.violation(key("approx-panic", thr), format!("approximate panicked: {p}"), obj! {"kind" => "approx", "type" => T::NAME, "n" => n, "seed" => seed, "thr" => ti}); continue; } };
         let case = obj! {"kind" => "approx", "type" => T::NAME, "n" => n, "seed" => seed, "thr" => ti};
-        let key = |cl: &str| format!("{cl}|{}|n={n}|seed={seed}|thr={thr}", T::NAME);
+        let key = |cl: &str| format!("{cl}|{}|n={n}|seed={seed}|thr={thr}{}", T::NAME, if signed { "(one-sided)" } else { "" });
         if out.len() < 2 || out[0] != pts[0] || out[out.len() - 1] != pts[3 * n] {
             r.violation(key("approx-endpoints"), format!("polyline of {} points starts {:?} ends {:?}; curve endpoints {:?} {:?}", out.len(), out.first(), out.last(), pts[0], pts[3 * n]), case);
             continue;
@@ -211,7 +215,7 @@ fn run_spline(cfg: &Cfg) -> ! {
     }
     rep.sample(0, || obj! {"cubic_f32_ctrl" => vec![0.0f32, 3.0, -1000.0, 1e-3], "t" => "k/64, <0, >1, NaN", "spline" => "n=7 segments, t=3/7 +- ulp", "approximate_thresholds" => vec![1.0f32, 0.1, 0.01, 1e-4, 0.0, -1.0]});
     rep.finish(cfg, "exploration",
-        "cubic Beziers: all 7^4 scalar control polygons and a pooled family for Vec2/Vec3/Point2/Color3f x t in {k/64} + {<0, -0, >1, NaN, +-inf, near-1}: eval and fast_eval vs f64 Bernstein (1e-4 scale), exact end points at and beyond the ends, bounding box, tangent vs derivative; splines with 1..8 segments x control polygons x t lattice incl. k/n and k/n +- 1 ulp: owning cubic, through every third control point, join continuity; approximate() with thresholds from coarse to 0 and negative (forces the depth bound): endpoints exact, points are curve points at increasing dyadic parameters, every piece met the criterion or sits at depth 10+log2(len). non-trivial = interior parameter judged / polyline verified.",
+        "cubic Beziers: all 7^4 scalar control polygons and a pooled family for Vec2/Vec3/Point2/Color3f x t in {k/64} + {<0, -0, >1, NaN, +-inf, near-1}: eval and fast_eval vs f64 Bernstein (1e-4 scale), exact end points at and beyond the ends, bounding box, tangent vs derivative; splines with 1..8 segments x control polygons x t lattice incl. k/n and k/n +- 1 ulp: owning cubic, through every third control point, join continuity; approximate() with thresholds from coarse to 0 and negative (forces the depth bound) and with one-sided criteria on the signed error vector q - q': endpoints exact, points are curve points at increasing dyadic parameters, every piece met the criterion or sits at depth 10+log2(len). non-trivial = interior parameter judged / polyline verified.",
         &["tolerances 1e-4 (cubic) and 1e-3 (spline) relative to the largest control magnitude", "approximate(): first compared with an independent re-run of the bisection schedule; on mismatch a schedule-agnostic check decides"])
 }
 
@@ -310,10 +314,16 @@ fn check_polar_first(rr: f32, azd: f32, altd: f32, r: &mut Report) {
     let key = |cl: &str| format!("{cl}|r={rr:e}|az={azd}|alt={altd}");
     let p = polar(rr, degs(azd));
     let c = p.to_cart();
+    // Cartesian components against f64 trigonometry of the very angle stored (many revolutions included)
+    let a64 = p.az().to_rads() as f64;
+    if ((c.x() as f64 - rr as f64 * a64.cos()).abs()).max((c.y() as f64 - rr as f64 * a64.sin()).abs()) > 2e-6 * rr as f64 { r.violation(key("polar-to-cart"), format!("polar({rr},{azd}deg).to_cart() = {c:?}, f64: ({}, {})", rr as f64 * a64.cos(), rr as f64 * a64.sin()), case()); }
     let q = c.to_polar();
     if ((q.r() - rr).abs() as f64) > 1e-4 * rr as f64 || circ_diff(q.az().to_rads() as f64, p.az().to_rads() as f64) > 1e-4 { r.violation(key("polar-inverse"), format!("polar({rr},{azd}deg) -> {c:?} -> {q:?}"), case()); }
     if altd.abs() <= 89.0 {
         let s = spherical(rr, degs(azd), degs(altd));
+        let (sc, l64) = (s.to_cart(), s.alt().to_rads() as f64);
+        let want = [rr as f64 * a64.cos() * l64.cos(), rr as f64 * l64.sin(), rr as f64 * a64.sin() * l64.cos()];
+        if (0..3).any(|k| (sc.0[k] as f64 - want[k]).abs() > 2e-6 * rr as f64) { r.violation(key("spherical-to-cart"), format!("spherical({rr},{azd},{altd}).to_cart() = {sc:?}, f64: {want:?}"), case()); }
         let t = s.to_cart().to_spherical();
         if ((t.r() - rr).abs() as f64) > 1e-4 * rr as f64 || circ_diff(t.az().to_rads() as f64, s.az().to_rads() as f64) > 1e-4 || ((t.alt().to_rads() - s.alt().to_rads()).abs() as f64) > 1e-4 { r.violation(key("spherical-inverse"), format!("spherical({rr},{azd},{altd}) -> {:?} -> {t:?}", s.to_cart()), case()); } else { r.nontrivial(); }
     }
@@ -349,10 +359,16 @@ fn run_angle(cfg: &Cfg) -> ! {
         let (az, alt, m) = ((i % 49) as f32 * 7.5 - 180.0, (i / 49 % 25) as f32 * 7.5 - 90.0, mags[(i / 49 / 25) as usize]);
         check_polar_first(m, az, alt, r);
     }));
+    // the same over many revolutions: azimuth k*7.5 degrees + n turns
+    rep.merge(par_range(cfg, 49 * 5 * 8, |i, r| {
+        let n = [3.0f32, -3.0, 100.0, -100.0, 1000.0, -1000.0, 5000.0, -20000.0][(i / 245) as usize];
+        let (az, alt) = ((i % 49) as f32 * 7.5 - 180.0 + n * 360.0, (i / 49 % 5) as f32 * 37.5 - 75.0);
+        check_polar_first([1.0f32, 250.0][(i % 2) as usize], az, alt, r);
+    }));
     let _: Angle = Angle::ZERO;
     rep.sample(0, || obj! {"angle_deg" => -1500.0, "wrap_interval_turns" => vec![0.0, 1.0], "vec2" => vec![-2e-7, 2e-7], "vec3" => vec![0.0, -5e-7, 0.0]});
     rep.finish(cfg, "exploration",
-        "angles k*7.5 deg for |k|<=480 (+-10 turns) with +-1 ulp neighbours and {1e-6,1e4,1e6,...} rad: unit conversions in all directions, sin/cos/sin_cos, operators/clamp/min/max on the magnitude, wrap into 7 intervals x 3 unit spellings (in range, congruent); 2-D and 3-D vector lattices x magnitudes {1e-9,1e-6,1,1e4} minus zero, plus a 9^3 lattice mixing magnitudes 1e-6..1e3 per component (near-axis and near-pole vectors): radius = length, azimuth/altitude ranges and values vs f64 atan2, Cartesian->polar/spherical->Cartesian and the reverse order round trips. non-trivial = wrapped from outside the interval / round trip verified.",
+        "angles k*7.5 deg for |k|<=480 (+-10 turns) with +-1 ulp neighbours and {1e-6,1e4,1e6,...} rad: unit conversions in all directions, sin/cos/sin_cos, operators/clamp/min/max on the magnitude, wrap into 7 intervals x 3 unit spellings (in range, congruent); 2-D and 3-D vector lattices x magnitudes {1e-9,1e-6,1,1e4} minus zero, plus a 9^3 lattice mixing magnitudes 1e-6..1e3 per component (near-axis and near-pole vectors): radius = length, azimuth/altitude ranges and values vs f64 atan2, Cartesian->polar/spherical->Cartesian and the reverse order round trips; polar/spherical -> Cartesian components vs f64 trigonometry of the stored angle (2e-6), also for azimuths of +-3, +-100, +-1000, 5000 and -20000 turns. non-trivial = wrapped from outside the interval / round trip verified.",
         &["std trigonometry; tolerances 1e-4 relative (coordinates), 1e-4 rad (angles), 1e-6 relative (unit conversions)"])
 }
 
